@@ -9,6 +9,7 @@ import Driver.FsStream
 import Driver.WriterStream
 import Driver.E2EStream
 import Driver.ConcStream
+import Driver.ParseStream
 open Driver
 
 def main (args : List String) : IO UInt32 := do
@@ -33,4 +34,6 @@ def main (args : List String) : IO UInt32 := do
   | ["mon", "e2e"] => runMon E2EStream.monInit E2EStream.monStep E2EStream.monFinish; return 0
   | ["model", "conc"] => runModel ConcStream.monInit ConcStream.step; return 0
   | ["mon", "conc"] => runMon ConcStream.monInit ConcStream.monStep ConcStream.monFinish; return 0
+  | ["model", "parse"] => runModel ParseStream.init ParseStream.step; return 0
+  | ["mon", "parse"] => runMon ParseStream.init ParseStream.monStep ParseStream.monFinish; return 0
   | _ => IO.eprintln "usage: driver model|mon <stream>"; return 2
